@@ -30,6 +30,10 @@ FORK_MUTATION = "fork"
 # tested
 MAX_FORK_SIZE = 4
 
+# number of times a different command/node is drawn before a mutation is
+# given up (the component generator may be unable to produce anything else)
+MAX_MUTATION_ATTEMPTS = 100
+
 
 class AGraphMutation(Mutation):
     """Mutation of acyclic graph individual
@@ -147,11 +151,15 @@ class AGraphMutation(Mutation):
 
         old_command = individual.command_array[mutation_location]
         new_command = self._component_generator.random_command(mutation_location)
+        attempts = 0
         while (
             np.array_equal(new_command, old_command)
             or old_command[0] == new_command[0] == CONSTANT
         ):
+            if attempts >= MAX_MUTATION_ATTEMPTS:
+                return
             new_command = self._component_generator.random_command(mutation_location)
+            attempts += 1
 
         individual.mutable_command_array[mutation_location] = new_command
 
@@ -169,8 +177,12 @@ class AGraphMutation(Mutation):
 
         old_command = individual.command_array[mutation_location]
         new_command = old_command.copy()
+        attempts = 0
         while old_command[0] == new_command[0]:
+            if attempts >= MAX_MUTATION_ATTEMPTS:
+                return
             self._randomize_node(new_command)
+            attempts += 1
 
         individual.mutable_command_array[mutation_location] = new_command
 
